@@ -276,6 +276,18 @@ def run_case(i, rng, rec, tier, state):
         ok = r1.shape == (1,) and res.shape == (len(pts),) and bool(r1[0]) == bool(res[j])
         rec.check("batch-vs-single", ok, f"{which}.is_inside/batch-differs-from-single",
                   lambda: dict(info, point=pts[j], index=int(j), single=r1, batch=res[j] if res.shape == (len(pts),) else res.shape))
+    # the same query in the other forms an array of points takes: whole-number points as integer arrays and nested lists
+    # (each call is judged by the membership monitor like any other)
+    ip = np.rint(pts[rng.choice(len(pts), size=min(16, len(pts)), replace=False)])
+    if float(np.abs(ip).max()) < 2 ** 30:
+        for form, argi in (("int64", ip.astype(np.int64)), ("int32", ip.astype(np.int32)), ("list-of-int-lists", [[int(x) for x in row] for row in ip])):
+            rec.cls("form:" + form)
+            try:
+                ri = np.asarray(s.is_inside(argi))
+                rec.check("batch-vs-single", ri.shape == (len(ip),) and ri.dtype == bool, f"{which}.is_inside/result-shape-or-dtype-for-{form}-points",
+                          lambda: dict(info, shape=ri.shape, dtype=str(ri.dtype)))
+            except Exception as e:
+                rec.violation("batch-vs-single", f"{which}.is_inside/rejects-{form}-input", dict(info, points=ip[:4], exc=repr(e)[:300]))
     if len(pts) > 1:
         perm = rng.permutation(len(pts))
         r2 = np.asarray(s.is_inside(pts[perm].copy()))
